@@ -75,18 +75,20 @@ type sim struct {
 }
 
 type stepCtx struct {
-	kind           string // in | timer | flush | send | connect | disconnect | stop
-	raw            []byte
-	fields         []fixwire.Field
-	msgType        string
-	seq            int
-	hasSeq         bool
-	possDup        string
-	tBefore        int
-	stateBefore    string
-	loggedOnBefore bool
-	faithful       bool // the frame came from the faithful peer's link (not an adversarial injection)
-	wellFormed     bool // header and PossDup/OrigSendingTime consistent (always true for the faithful peer)
+	kind            string // in | timer | flush | send | connect | disconnect | stop
+	raw             []byte
+	fields          []fixwire.Field
+	msgType         string
+	seq             int
+	hasSeq          bool
+	possDup         string
+	tBefore         int
+	stateBefore     string
+	loggedOnBefore  bool
+	faithful        bool // the frame came from the faithful peer's link (not an adversarial injection)
+	wellFormed      bool // header and PossDup/OrigSendingTime consistent (always true for the faithful peer)
+	connectedBefore bool
+	sBefore         int
 }
 
 func newSim(t vk.TB, c *stats.Collector, cfg simCfg) *sim {
@@ -151,7 +153,7 @@ func (s *sim) observe(st rig.StepResult, ctx stepCtx) {
 }
 
 func (s *sim) ctxFor(kind string, raw []byte, faithful bool) stepCtx {
-	ctx := stepCtx{kind: kind, raw: raw, tBefore: s.r.T(), stateBefore: s.r.V.StateName(), loggedOnBefore: s.r.V.IsLoggedOn(), faithful: faithful, wellFormed: faithful}
+	ctx := stepCtx{kind: kind, raw: raw, tBefore: s.r.T(), stateBefore: s.r.V.StateName(), loggedOnBefore: s.r.V.IsLoggedOn(), faithful: faithful, wellFormed: faithful, connectedBefore: s.r.V.IsConnected(), sBefore: s.r.S()}
 	if raw != nil {
 		ctx.fields, _ = fixwire.Scan(raw, map[int]int{212: 213})
 		ctx.msgType = fixwire.GetS(ctx.fields, 35)
